@@ -1,6 +1,6 @@
 (* Correspondence cases for C42: the drivers ran the real resolveSource / resolveDest. *)
 From Coq Require Import List ZArith Bool.
-Require Export MTX.Model.C42_Template MTX.Model.C42_Life.
+Require Export MTX.Model.C42_Template MTX.Model.C42_Life MTX.Model.C42_SrcConf.
 Import ListNotations.
 Local Open Scope Z_scope.
 
@@ -19,7 +19,31 @@ Inductive case :=
 | Src (t : bytes) (ms : list bytes) (q : bytes) (ok : bool) (out : bytes)
 | Dst (t path : bytes) (ms : list bytes) (ok : bool) (out : bytes)
 | Life (name : bytes) (ms0 : list bytes) (fwd0 : list dconf) (tmpl : option bytes) (ob0 : obs)
-       (steps : list (op * obs)).
+       (steps : list (op * obs))
+(* a history on a real staticsources.Handler with, after every step, the generation of the effective configuration
+   of the running instance (the configuration it was created with, replaced by each one it was notified of; None: no
+   instance runs) *)
+| SrcConf (csteps : list (cop * option Z)).
+
+Definition oz_eqb (a b : option Z) : bool :=
+  match a, b with Some x, Some y => x =? y | None, None => true | _, _ => false end.
+
+Fixpoint conf_mm (s : cst) (l : list (cop * option Z)) : bool :=
+  match l with
+  | [] => false
+  | (o, e) :: r => let s' := cstep s o in negb (oz_eqb (c_eff s') e) || conf_mm s' r
+  end.
+
+(* the property on the observation: while an instance runs (start / retry until stop / failure, read off the
+   history) its effective configuration is the one of the latest reload = the number of reloads so far *)
+Fixpoint conf_bad (alive : bool) (n : Z) (l : list (cop * option Z)) : bool :=
+  match l with
+  | [] => false
+  | (o, e) :: r =>
+      let alive' := match o with CStart | CRetry => true | CStop | CFail => false | CReload => alive end in
+      let n' := match o with CReload => n + 1 | _ => n end in
+      (alive' && negb (oz_eqb e (Some n'))) || conf_bad alive' n' r
+  end.
 
 (* ---- model side of a life-cycle case ---- *)
 Fixpoint hobs_mm (name : bytes) (fms : list bytes) (hs : list fh) (l : list hobs) : bool :=
@@ -61,6 +85,7 @@ Definition mismatch (c : case) : bool :=
       negb (bytes_eqb out (resolve_dest t path ms)) || negb (Bool.eqb ok (template_ok (dst_cfg ms) t))
   | Life name ms0 fwd0 tmpl ob0 steps =>
       let s := init name ms0 fwd0 tmpl in obs_mm s [] ob0 || life_mm s steps
+  | SrcConf l => conf_mm cinit l
   end.
 
 (* The property on the observed output: it is the single left-to-right substitution. Path names are validated
@@ -143,4 +168,5 @@ Definition spec_fail (c : case) : bool :=
   | Life name ms0 fwd0 tmpl ob0 steps =>
       let sp := {| sp_ms := ms0; sp_fwd := fwd0; sp_run := false; sp_alive := false; sp_q := []; sp_last := None |} in
       obs_bad name tmpl sp ob0 || life_bad name tmpl sp steps
+  | SrcConf l => conf_bad false 0 l
   end.
